@@ -27,3 +27,6 @@ def run(ck):
     ops.conversions(ck, "C16.R2")       # every read route (float()/int()/complex()) goes through astype, where the read map lives
     pipeline.store_pipeline(ck, "C01.R2", want_bounds=False)
     fresh.constructor_state(ck, "C20.R2")            # results and operands are built by the constructor: own status record, own final configuration
+    conv.scaled_value_type(ck, "C17.R8")
+    fresh.no_hidden_state(ck, "C20.R8")                  # results depend on the documented state only (no caches / memos)
+    conv.rescaling_siblings(ck, "C10.R1", "C10.R2")     # equal() stores through the map unless the source is a fixed-point object
